@@ -83,8 +83,13 @@ fn count_symbols(src: &[u8]) -> NonZero<usize> {
 }
 
 fn write_symbol_count(dst: &mut Vec<u8>, symbol_count: NonZero<usize>) -> io::Result<()> {
-    let n = u8::try_from(usize::from(symbol_count))
-        .map_err(|e| io::Error::new(io::ErrorKind::InvalidInput, e))?;
+    const ALPHABET_SIZE: usize = 256;
+
+    // A full alphabet is written as 0.
+    let n = match usize::from(symbol_count) {
+        ALPHABET_SIZE => 0,
+        n => u8::try_from(n).map_err(|e| io::Error::new(io::ErrorKind::InvalidInput, e))?,
+    };
 
     write_u8(dst, n)
 }
